@@ -397,7 +397,34 @@ def sibling_fullpath_refs(r):
     return layers
 
 
-FAMILIES = {"colon_selectors": colon_selectors, "same_value_layers": same_value_layers, "sibling_fullpath_refs": sibling_fullpath_refs,
+def ref_layer_self_lookup(r):
+    """A multiply-defined parameter one of whose layers is a whole-value reference, while a mapping layer of the same
+    parameter looks back into that parameter by a colon path (${cfg:port}) -- a legal sibling lookup, not a loop."""
+    nested = r.chance(1, 3)
+    pfx = "app:" if nested else ""
+    look = r.choice(["http://x:${%scfg:port}" % pfx, "${%scfg:port}" % pfx, "${%scfg:opts:host}" % pfx])
+    a = {"port": 80, "opts": {"tls": False, "host": "x"}, "urls": [look]}
+    if r.chance(1, 2):
+        a["self"] = "${%scfg:port}" % pfx
+    extra = r.choice([{"opts": {"tls": True}, "urls": ["https://y"]}, {"port": 81}, {"opts": {"host": "${other}"}}])
+    c = {"opts": {"host": "z"}, "urls": ["z"]}
+    def wrap(v):
+        return {"app": {"cfg": v}} if nested else {"cfg": v}
+    stack = [wrap(a), {"extra": extra, "other": "o"}, wrap("${extra}")]
+    order = r.choice(["a_ref", "ref_a", "a_ref_c", "a_c_ref"])
+    if order == "ref_a":
+        stack = [{"extra": extra, "other": "o"}, wrap("${extra}"), wrap(a)]
+    elif order == "a_ref_c":
+        stack.append(wrap(c))
+    elif order == "a_c_ref":
+        stack = [wrap(a), wrap(c), {"extra": extra, "other": "o"}, wrap("${extra}")]
+    if r.chance(1, 2):
+        stack.append({"outside": r.choice(["${%scfg:port}" % pfx, "${%scfg:urls}" % pfx, "p=${%scfg:opts:host}" % pfx])})
+    return G.P(*stack)["layers"]
+
+
+
+FAMILIES = {"ref_layer_self_lookup": ref_layer_self_lookup, "colon_selectors": colon_selectors, "same_value_layers": same_value_layers, "sibling_fullpath_refs": sibling_fullpath_refs,
             "dup_in_one_mapping": dup_in_one_mapping, "odd_keys": odd_keys, "null_const": lambda r: null_const(r), "empty_segments": empty_segments, "override_through_path": override_through_path, "empty_const": empty_const,
             "deep_ref_layers": deep_ref_layers, "repeated_layers": repeated_layers, "escapes_in_containers": escapes_in_containers,
             "both_flags": both_flags}
